@@ -10,22 +10,35 @@ Definition show_event (redacted : bool) (j : json) : bytes :=
   bs "redacted=" ++ flag redacted ++ nl ++ canon_print j ++ nl ++
   match jget content_key j with Some c => canon_print c | None => [] end.
 
-Definition is_one (b : bytes) : bool := bytes_eqb b (bs "1").
-
 Definition all_numbers_safe (j : json) : bool := content_numbers_safe j.
 
-(* [ver; event text; hash verdict 1/0] *)
+Definition class_name (c : fclass) : bytes :=
+  match c with
+  | FTooLarge => bs "err-toolarge"
+  | FPersist => bs "err-persistable"
+  | _ => bs "err"
+  end.
+
+(* a refusal: its class; a persistable refusal by CheckFields also hands the event back *)
+Definition show_full (u : ufull) : bytes :=
+  match u with
+  | FullOk fl e => show_event fl e
+  | FullErr FPersist (Some (fl, e)) => class_name FPersist ++ nl ++ show_event fl e
+  | FullErr c _ => class_name c
+  end.
+
+(* the verdict of checkEventContentHash, given the real SHA-256 of the hashed form *)
+Definition hok_of (ver : bytes) (j : json) (real : bytes) : bool := hash_matches real (strip ver j).
+
+(* [ver; event text; SHA-256 of its hashed form] *)
 Definition run_parse (args : list bytes) : bytes :=
   match args with
-  | [ver; txt; hok] =>
+  | [ver; txt; real] =>
       match parse_json txt with
       | None => bs "err"
       | Some j =>
           if negb (all_numbers_safe j) then bs "unmodelled-number" else
-          match parse_untrusted ver j (is_one hok) with
-          | UErr => bs "err"
-          | UOk r e => show_event r e
-          end
+          show_full (parse_untrusted_full ver j (hok_of ver j real))
       end
   | _ => bs "badargs"
   end.
@@ -47,21 +60,38 @@ Definition id_token (ver : bytes) (e : json) : bytes :=
 Definition sig_token (ver : bytes) (e : json) : bytes :=
   opt_canon (option_map (jdel (bs "unsigned")) (redact ver e)).
 
-(* [ver; original (validly signed, hash ok); tampered; hash verdict of the tampered text] *)
+(* [ver; original (validly signed, hash ok); tampered; SHA-256 of the tampered text's hashed form] *)
 Definition run_tamper (args : list bytes) : bytes :=
   match args with
-  | ver :: otxt :: ttxt :: hok :: _ =>
+  | ver :: otxt :: ttxt :: real :: _ =>
       match parse_json otxt, parse_json ttxt with
       | Some o, Some t =>
           if negb (all_numbers_safe o && all_numbers_safe t) then bs "unmodelled-number" else
-          match parse_untrusted ver o true, parse_untrusted ver t (is_one hok) with
-          | UOk _ eo, UOk r et =>
+          match parse_untrusted ver o true, parse_untrusted_full ver t (hok_of ver t real) with
+          | UOk _ eo, FullOk r et =>
               show_event r et ++ nl ++
               bs "id=" ++ (if bytes_eqb (id_token ver eo) (id_token ver et) then bs "same" else bs "diff") ++ nl ++
               bs "sig=" ++ (if bytes_eqb (sig_token ver eo) (sig_token ver et) then bs "ok" else bs "bad")
-          | _, _ => bs "err"
+          | UOk _ _, u => show_full u
+          | UErr, _ => bs "original-rejected"
           end
       | _, _ => bs "err"
+      end
+  | _ => bs "badargs"
+  end.
+
+(* [ver; -; event text; SHA-256 of its hashed form; class] *)
+Definition run_limits (args : list bytes) : bytes :=
+  match args with
+  | ver :: _ :: txt :: real :: _ =>
+      match parse_json txt with
+      | None => bs "err"
+      | Some j =>
+          if negb (all_numbers_safe j) then bs "unmodelled-number" else
+          match parse_untrusted_full ver j (hok_of ver j real) with
+          | FullOk fl e => show_event fl e ++ nl ++ bs "id=-" ++ nl ++ bs "sig=-"
+          | u => show_full u
+          end
       end
   | _ => bs "badargs"
   end.
@@ -90,34 +120,57 @@ Definition content_keys_allowed (sp : rspec) (ty : bytes) (c : json) : bool :=
   | None => match jkeys c with [] => true | _ => false end
   end.
 
-(* [ver; original; tampered; hok; class; observable]
-   class: r = only redactable material / stripped keys / unsigned altered (or nothing),
-          p = protected material altered (incl. the hash itself) *)
+(* [ver; original; tampered; SHA-256 of the tampered text's hashed form; class; observable]
+   class: r = only redactable material / stripped keys / unsigned altered (or nothing)
+          p = protected material altered (incl. the hash replaced by another value)
+          m = hashes.sha256 spelled differently, SAME decoded bytes: the hash still matches
+          x = hashes.sha256 altered so that the decoded bytes differ (or do not decode): mismatch
+          e:ok / e:toolarge / e:persistable = a length fault was planted (possibly together with
+              a hash fault): accepted / refused / refused-but-persistable, as the size class of
+              what surfaces demands (more than 255 code points or 65536 bytes: refused; more
+              than 255 bytes only: persistable) *)
+Definition starts_with (p s : bytes) : bool := is_prefix p s.
+
 Definition prop_surface (args : list bytes) : bytes :=
   match args with
-  | [ver; otxt; ttxt; hok; class; obs] =>
-      (* altering protected material may make the event unacceptable altogether *)
-      if bytes_eqb obs (bs "err") then (if bytes_eqb class (bs "p") then bs "ok" else bs "FAIL rejected") else
+  | [ver; otxt; ttxt; real; class; obs] =>
       match spec_of_version ver, parse_json ttxt, split_lines obs [] with
-      | Some sp, Some t, [l1; l2; l3; l4; l5] =>
-          match parse_json l2 with
-          | Some e =>
-              let ty := match jget type_key e with Some (JStr s) => s | _ => [] end in
-              let c := match jget content_key e with Some c => c | None => JObj [] end in
-              let surface_ok :=
-                if is_one hok then
-                  bytes_eqb l1 (bs "redacted=false") &&
-                  bytes_eqb l2 (canon_print (strip_with (spec_stripped ver) t))
-                else
-                  bytes_eqb l1 (bs "redacted=true") &&
-                  subset_b (jkeys e) (sp_top sp) && content_keys_allowed sp ty c in
-              let same_ok :=
-                if bytes_eqb class (bs "r") then bytes_eqb l4 (bs "id=same") && bytes_eqb l5 (bs "sig=ok")
-                else true in
-              let content_line_ok := bytes_eqb l3 (canon_print c) in
-              if surface_ok && same_ok && content_line_ok then bs "ok"
-              else bs "FAIL surface=" ++ flag surface_ok ++ bs " same=" ++ flag same_ok ++ bs " content=" ++ flag content_line_ok
-          | None => bs "FAIL unparsable JSON()"
+      | Some sp, Some t, l1 :: rest =>
+          let hok := hash_matches real (strip_with (spec_stripped ver) t) in
+          let label_ok :=
+            if bytes_eqb class (bs "m") then hok
+            else if bytes_eqb class (bs "x") then negb hok else true in
+          if negb label_ok then bs "FAIL label: the decoded hash does not behave as the variant was built" else
+          if bytes_eqb class (bs "e:toolarge") then
+            (if bytes_eqb obs (bs "err-toolarge") then bs "ok" else bs "FAIL wanted err-toolarge")
+          else if bytes_eqb class (bs "e:persistable") then
+            (if bytes_eqb l1 (bs "err-persistable") then bs "ok" else bs "FAIL wanted err-persistable")
+          else if starts_with (bs "err") l1 then
+            (* altering protected material may make the event unacceptable altogether *)
+            (if bytes_eqb class (bs "p") then bs "ok" else bs "FAIL rejected")
+          else
+          match rest with
+          | [l2; l3; l4; l5] =>
+              match parse_json l2 with
+              | Some e =>
+                  let ty := match jget type_key e with Some (JStr s) => s | _ => [] end in
+                  let c := match jget content_key e with Some c => c | None => JObj [] end in
+                  let surface_ok :=
+                    if hok then
+                      bytes_eqb l1 (bs "redacted=false") &&
+                      bytes_eqb l2 (canon_print (strip_with (spec_stripped ver) t))
+                    else
+                      bytes_eqb l1 (bs "redacted=true") &&
+                      subset_b (jkeys e) (sp_top sp) && content_keys_allowed sp ty c in
+                  let same_ok :=
+                    if bytes_eqb class (bs "r") then bytes_eqb l4 (bs "id=same") && bytes_eqb l5 (bs "sig=ok")
+                    else true in
+                  let content_line_ok := bytes_eqb l3 (canon_print c) in
+                  if surface_ok && same_ok && content_line_ok then bs "ok"
+                  else bs "FAIL surface=" ++ flag surface_ok ++ bs " same=" ++ flag same_ok ++ bs " content=" ++ flag content_line_ok
+              | None => bs "FAIL unparsable JSON()"
+              end
+          | _ => bs "FAIL shape"
           end
       | None, _, _ => bs "unknown-version"
       | _, _, _ => bs "FAIL shape"
@@ -128,4 +181,5 @@ Definition prop_surface (args : list bytes) : bytes :=
 Definition ops_C04 : list (bytes * (list bytes -> bytes)) :=
   [ (bs "C04.parse", run_parse);
     (bs "C04.tamper", run_tamper);
+    (bs "C04.limits", run_limits);
     (bs "C04.prop.surface", prop_surface) ].
